@@ -75,6 +75,7 @@ class Sem:
         self._lay = {}
         self.enum_leaves = None  # when a list: receives (pos, end, enumdef, value) for every enum/flag decoded
         self.union_spans = None  # when a list: receives (pos, end, union type) for every union decoded
+        self.union_write = "ideal"  # "largest": encode unions the way the library's writer does (known finding KF-UNION-DUMP)
 
     # ------------------------------------------------------------ resolution / static facts
     def res(self, t):
@@ -441,7 +442,7 @@ class Sem:
             f = u["fields"][i]
             if not (f.get("name") is None and self.res(f["t"])["k"] == "st"):
                 return i
-        return idx[0]
+        return idx[-1]  # only anonymous structs: the writer ends up with the last (smallest) one it skipped
 
     # ------------------------------------------------------------ encode
     def enc_leb(self, v, signed):
@@ -561,6 +562,12 @@ class Sem:
             raise Unsupported("dynamic union")
         start = len(out)
         buf = bytearray(lay["size"])
+        if self.union_write == "largest":
+            f = u["fields"][self.union_written_member(u)]
+            b = self.encode(f["t"], v[fkey(f, self.union_written_member(u))], bytearray())
+            buf[: len(b)] = b
+            out += buf[: lay["size"]]
+            return
         # overlay members largest-last so that every member's data bytes are present
         order = sorted(range(len(u["fields"])), key=lambda i: self.size(u["fields"][i]["t"]) or 0)
         for i in order:
